@@ -21,7 +21,10 @@ THEOREMS = {
         "gen_numeric_eq_resid", "gen_numeric_is_norm", "gen_numeric_normal_eq", "gen_numeric_le_output", "gen_numeric_minimises",
         "gen_numeric_exact_combination_zero", "gen_numeric_remix_invariant",
         "gen_analytic_eq_resid", "gen_analytic_normal_eq", "gen_analytic_le_output", "gen_analytic_exact_combination_zero",
-        "gen_analytic_remix_invariant", "gen_solvers_agree", "gen_siso_eq_GyyRx", "gen_siso_eq_miso_q1", "MisoGen.abs_csqrt"],
+        "gen_analytic_remix_invariant", "gen_solvers_agree", "gen_siso_eq_GyyRx", "gen_siso_eq_miso_q1", "MisoGen.abs_csqrt",
+        # memoisation keys of the numeric solver (speckit a8eaa1b: f"T{i+1}_{j+1}") determine the pair for ALL indices, so every numeric theorem above
+        # holds for every q >= 1; the concatenated-digit scheme (analytic dict keys; numeric keys before a8eaa1b, defect D14) is PROVED ambiguous
+        "MisoGen.NTkey_inj", "MisoGen.Skey_inj'", "analytic_key_collision", "analytic_T_1_11_holds_conjugate", "old_numeric_key_collision"],
     "SpecKitV.Lemmas.MisoResidual": [
         "Miso.residual_is_norm", "Miso.residual_real_nonneg", "Miso.normal_eq_minimises", "Miso.residual_le_output",
         "Miso.solvers_agree", "Miso.exact_combination_zero", "Miso.remix_invariant", "Miso.siso_case", "model_misoResidual_toC"],
@@ -40,7 +43,9 @@ CONTRACTS = [
     "MisoGen.AnalyticSolved: the values sp.solve(eqns, Hvec) + sp.lambdify(...)(*[result[str(s)]...]) store under the unknowns' names satisfy the "
     "TRANSLATED symbolic equations (Gen.MISO_analytic_optimal_spectral_analysis.eqns) at the arrays stored under the symbols' names",
     "Np.Miso.Key / Dict / Cache: a Python str is its list of characters, f\"{i + 1}\" its decimal digits; dict stores and lookups by string equality; "
-    "Cache.memo = the helper get_ltf_result (if key not in result: result[key] = ltf(...)); theorems for q <= 9 inputs (one digit per index)",
+    "Cache.memo = the helper get_ltf_result (if key not in result: result[key] = ltf(...)); numeric-solver theorems for EVERY q >= 1 (its keys "
+    "S00 / T{i+1}_{j+1} / T11 / S{i+1}0 are proved injective and disjoint for all indices from the injectivity of decimal representation); "
+    "analytic-solver theorems for q <= 9 (its keys T{i+1}{j+1} are proved ambiguous from q = 11: analytic_key_collision)",
     "Np.Miso.A3.setRow / A2.setRow / A2.setCol = NumPy slice assignment T[i, j, :] = v / S[i, :] = v / H[:, k] = v; anyNonzero = np.any; "
     "sumAxis0 = np.sum(axis=0) (rows added in order); pySum = builtin sum; matVec = M @ v; forRangeFrom = range(a, b); "
     "csqrt = np.sqrt of a complex number (principal root)",
@@ -1250,6 +1255,75 @@ def repr_stream(ck: "Checker", ctx, seed: int, intensive: bool) -> None:
             break
 
 
+
+# ------------------------------------------------------------------------------------------------ corpus: defect D14 (thorough tier)
+# D14 (fixed by /repo commit a8eaa1b "MISO_numeric caches the pairwise input spectra under unambiguous keys"): before the fix the helper get_ltf_result
+# memoised the pair (i, j) under f"T{i+1}{j+1}"; from 112 inputs on two pairs share a key ("T1112" = (1,112) = (11,12)), Tmat received the cross-spectrum
+# of another pair and an exact static combination y = sum c_j x_j left a residual of ~1e-2*ASD(y) in every bin with navg > q (5e-8 with q = 111 or with
+# the fix).  Witness: q = 112 white inputs of 2500 samples, y their exact combination, Jdes=4, Kdes=300, olap=0.5, win="hann", order=0, Lmin=8 (four bins
+# with navg in 160..624 > 112); ~6300 ltf calls, about one minute.  In the quick tier the all-q theorems MisoGen.NTkey_inj / numeric_assembly stand for it.
+D14_KW = {"Jdes": 4, "Kdes": 300, "olap": 0.5, "win": "hann", "order": 0, "Lmin": 8}
+
+
+def d14_witness() -> Dict[str, Any]:
+    rng = np.random.default_rng(0xD14)
+    q, N = 112, 2500
+    xs = [rng.standard_normal(N) for _ in range(q)]
+    coeffs = [float(rng.choice([-1.0, 1.0]) * 10.0 ** rng.uniform(-0.5, 0.5)) for _ in range(q)]
+    y = sum(cj * xj for cj, xj in zip(coeffs, xs))
+    return {"sub_seed": -14, "q": q, "N": N, "fs": 1.0, "family": "corpus_D14", "coupling": "static", "xs": xs, "y": y, "kw": dict(D14_KW),
+            "coeffs": coeffs, "A": np.eye(q), "perm": list(range(q)), "noise_rel": 0.0, "big": True}
+
+
+def check_d14(ck: "Checker") -> None:
+    """the REAL numeric solver with 112 inputs on an exact static combination: residual power <= ETA_EXACT * B at every bin with navg > q
+    (B from the function's own arrays, the module's scale of the formula's terms)"""
+    P = ck.P
+    c = d14_witness()
+    q = c["q"]
+    P.hit("corpus_D14")
+    with LtfRecorder() as rec:
+        try:
+            f, asd = call("numeric", c["xs"], c["y"], c["fs"], c["kw"])
+        except Exception as ex:
+            ck.viol(c, "exact_combination", "numeric", f"D14 witness: raised {ex!r}", {"error": repr(ex)})
+            return
+    P.cases += 1
+    loc = rec.frame.f_locals if rec.frame is not None else {}
+    navg = None
+    for data, r in rec.calls:
+        if not isinstance(data, (list, tuple)):
+            navg = np.asarray(r.navg)
+            Gyy = np.asarray(r.Gxx, dtype=float)       # the one single-channel call is ltf(output)
+    if navg is None or any(n not in loc for n in ("Tmat", "Svec", "Hvec")):
+        ck.viol(c, "exact_combination", "numeric", "D14 witness: the function's arrays could not be read")
+        return
+    Tm, Sv, Hv = (np.asarray(loc[n]) for n in ("Tmat", "Svec", "Hvec"))
+    asd = np.asarray(asd, dtype=float)
+    n_chk = 0
+    for k in range(len(asd)):
+        if not (navg[k] > q and Gyy[k] > 0):
+            continue
+        cd = float(np.linalg.cond(Tm[:, :, k]))
+        if not (cd <= COND_MAX):
+            P.unstable += 1
+            continue
+        aH = np.abs(Hv[:, k])
+        B = Gyy[k] + 2.0 * float(aH @ np.abs(Sv[:, k])) + float(aH @ np.abs(Tm[:, :, k]) @ aH)
+        tol = ETA_EXACT * B
+        n_chk += 1
+        ck.ratio("exact_combination_D14", float(asd[k] ** 2 / tol))
+        if not (asd[k] ** 2 <= tol):
+            ck.viol(c, "exact_combination", "numeric",
+                    f"D14 witness (q = 112): bin {k} (navg={int(navg[k])}): y = sum c_j x_j exactly but residual ASD {float(asd[k])!r} = "
+                    f"{asd[k] / np.sqrt(Gyy[k]):.3g}*sqrt(Gyy) (allowed {np.sqrt(tol / Gyy[k]):.3g}*sqrt(Gyy), cond(T)={cd:.3g})",
+                    {"bin": k, "observed": float(asd[k]), "Gyy": float(Gyy[k])})
+            return
+    P.hit("corpus_D14_bins_checked", n_chk)
+    if n_chk:
+        P.nontrivial.add(("corpus_D14", q))
+
+
 def oracle(ctx, intensive: bool = False, hints: List[Dict[str, Any]] = ()) -> C.Part:
     """the property's sub-claims on the real implementation only"""
     P = C.Part()
@@ -1260,6 +1334,13 @@ def oracle(ctx, intensive: bool = False, hints: List[Dict[str, Any]] = ()) -> C.
     # corpus first: D2 witness (coupling with a delay)
     ck.check_case(d2_witness())
     P.sample({"op": "oracle-corpus", **case_desc(d2_witness())})
+    if ctx.thorough or intensive:
+        # corpus D14 (q = 112, about one minute): thorough tier, and whenever an obligation is broken (failing-input search); in a green quick run the
+        # all-q key-injectivity theorems stand for it
+        try:
+            check_d14(ck)
+        except Exception as ex:
+            P.notes.append(f"corpus D14 aborted: {ex!r}"[:200])
     try:
         edge_stream(ck, np.random.default_rng(int(ctx.rng.integers(0, 2 ** 62))))
     except Exception as ex:
@@ -1322,6 +1403,9 @@ def replay(ctx, data) -> C.Part:
             if case_digest(c) != cd.get("digest"):
                 P.notes.append(f"replay: regenerated records differ from the stored digest for representation case {cd['sub_seed']}")
             check_repr(ck, c, ["siso", "numeric", "analytic"])
+            continue
+        if cd["sub_seed"] == -14:
+            check_d14(ck)
             continue
         if cd["sub_seed"] == -2:
             c = d2_witness()
